@@ -26,9 +26,10 @@ Inductive occurs : expr -> stmt -> Prop :=
 | oc_if_b e c a b : occurs e b -> occurs e (SIf c a b)
 | oc_while_c e c a : subexpr e c -> occurs e (SWhile c a)
 | oc_while_b e c a : occurs e a -> occurs e (SWhile c a)
-| oc_for_lo e x t lo hi a : subexpr e lo -> occurs e (SFor x t lo hi a)
-| oc_for_hi e x t lo hi a : subexpr e hi -> occurs e (SFor x t lo hi a)
-| oc_for_b e x t lo hi a : occurs e a -> occurs e (SFor x t lo hi a)
+| oc_for_lo e x t lo hi ic st a : subexpr e lo -> occurs e (SFor x t lo hi ic st a)
+| oc_for_hi e x t lo hi ic st a : subexpr e hi -> occurs e (SFor x t lo hi ic st a)
+| oc_for_st e x t lo hi ic st a : subexpr e st -> occurs e (SFor x t lo hi ic st a)
+| oc_for_b e x t lo hi ic st a : occurs e a -> occurs e (SFor x t lo hi ic st a)
 | oc_ret e e0 : subexpr e e0 -> occurs e (SReturn (Some e0))
 | oc_print e es a : In a es -> subexpr e a -> occurs e (SPrint es)
 | oc_expr e e0 : subexpr e e0 -> occurs e (SExpr e0)
@@ -128,7 +129,7 @@ Theorem occurs_typed : forall s ret inl G G', check_stmt structs sigs ret inl G 
 Proof.
   intros s ret inl G G' H e Ho. revert ret inl G G' H.
   induction Ho as [e a b Ho IH|e a b Ho IH|e x t e0 Hs|e x e0 Hs|e x k e0 Hs|e c a b Hs|e c a b Ho IH|e c a b Ho IH
-                  |e c a Hs|e c a Ho IH|e x t lo hi a Hs|e x t lo hi a Hs|e x t lo hi a Ho IH|e e0 Hs|e es a Hin Hs|e e0 Hs|e a Ho IH]; intros ret inl G G' H; cbn in H.
+                  |e c a Hs|e c a Ho IH|e x t lo hi ic st a Hs|e x t lo hi ic st a Hs|e x t lo hi ic st a Hs|e x t lo hi ic st a Ho IH|e e0 Hs|e es a Hin Hs|e e0 Hs|e a Ho IH]; intros ret inl G G' H; cbn in H.
   - apply tbind_ok in H as [G1 [H1 H2]]. eapply IH; eauto.
   - apply tbind_ok in H as [G1 [H1 H2]]. eapply IH; eauto.
   - destruct (in_current x G); [discriminate|]. apply tbind_ok in H as [te [H1 _]].
@@ -149,8 +150,10 @@ Proof.
   - apply tbind_ok in H as [tl [H1 _]]. destruct (subexpr_typed G _ _ H1 _ Hs) as [t' Ht']. eauto.
   - apply tbind_ok in H as [tl [_ H]]. apply tbind_ok in H as [th [H2 _]].
     destruct (subexpr_typed G _ _ H2 _ Hs) as [t' Ht']. eauto.
-  - apply tbind_ok in H as [tl [_ H]]. apply tbind_ok in H as [th [_ H]].
-    destruct (ty_eqb tl (TInt t) && ty_eqb th (TInt t)); [|discriminate].
+  - apply tbind_ok in H as [tl [_ H]]. apply tbind_ok in H as [th [_ H]]. apply tbind_ok in H as [ts [H3 _]].
+    destruct (subexpr_typed G _ _ H3 _ Hs) as [t' Ht']. eauto.
+  - apply tbind_ok in H as [tl [_ H]]. apply tbind_ok in H as [th [_ H]]. apply tbind_ok in H as [ts [_ H]].
+    destruct (ty_eqb tl (TInt t) && ty_eqb th (TInt t) && ty_eqb ts (TInt t)); [|discriminate].
     apply tbind_ok in H as [Ga [Ha _]]. eapply IH; eauto.
   - apply tbind_ok in H as [te [H1 _]]. destruct (subexpr_typed G _ _ H1 _ Hs) as [t' Ht']. eauto.
   - assert (G' = G) as ->.
